@@ -280,8 +280,12 @@ def describe(sc):
             parts.append(x)
         elif "edit" in s:
             parts.append("edit %s.%s=%s" % (s["edit"]["res"], s["edit"]["field"], s["edit"]["value"]))
+        elif "oobnew" in s:
+            parts.append("oobnew %s(%s)" % (s["oobnew"]["res"], s["oobnew"]["own"]))
         elif "oobdel" in s:
             parts.append("oobdel " + s["oobdel"])
+        elif "oobunkeep" in s:
+            parts.append("oobunkeep " + s["oobunkeep"])
         elif "oobkeep" in s:
             parts.append("oobkeep " + s["oobkeep"])
     pre = ",".join("%s:%s" % (p["res"], p["own"]) for p in sc.get("pre", []))
